@@ -14,6 +14,7 @@ from .symex import PathLimit
 from .props import PROPERTIES
 
 REPO = os.environ.get('VERIF_REPO', '/repo')
+_CTX = {}
 
 
 def run_property(pid, tier, seed):
@@ -24,8 +25,11 @@ def run_property(pid, tier, seed):
     cfg_info = []
     fixtures_results = None
     for cfg in configs:
-        facts, dt = extract.extract(REPO, 'mini_moka', cfg)
-        ctx = Context(facts, tier=tier)
+        if cfg not in _CTX:
+            facts, dt = extract.extract(REPO, 'mini_moka', cfg)
+            _CTX[cfg] = (Context(facts, tier=tier), dt)
+        ctx, dt = _CTX[cfg]
+        facts = ctx.facts
         cfg_info.append({'config': cfg, 'bodies': len(ctx.prog.bodies), 'extract_s': round(dt, 2), 'cfg': facts['cfg']})
         rules = spec['rules']
         for rule in rules:
@@ -33,7 +37,16 @@ def run_property(pid, tier, seed):
                 continue
             if cfg in getattr(rule, 'skip_configs', ()):
                 continue
-            res = rule(ctx)
+            # one evaluation per rule and configuration, shared by the properties that use the rule (ALL mode)
+            rk = ('ruleresult', rule)
+            if rk not in ctx.cache:
+                try:
+                    ctx.cache[rk] = rule(ctx)
+                except (CheckFailure, AnchorMissing, PathLimit) as e:
+                    ctx.cache[rk] = e
+            res = ctx.cache[rk]
+            if isinstance(res, Exception):
+                raise res
             res.config = cfg
             all_results.append(res)
     # fixtures: every rule of this property that has a bad fixture must fire on it
@@ -48,7 +61,18 @@ def main(argv=None):
     ap.add_argument('property')
     ap.add_argument('--tier', default=os.environ.get('VERIF_TIER', 'quick'), choices=['quick', 'thorough'])
     args = ap.parse_args(argv)
-    pid = args.property
+    if args.property == 'ALL':
+        # every claimed property on one extraction of the current tree (used by the validation matrices)
+        worst = 0
+        for pid in sorted(PROPERTIES):
+            rc = check_one(pid, args)
+            print('RESULT %s rc=%d' % (pid, rc))
+            worst = max(worst, rc)
+        return worst
+    return check_one(args.property, args)
+
+
+def check_one(pid, args):
     seed = int(os.environ.get('VERIF_SEED', '0') or 0)
     if pid not in PROPERTIES:
         print('unknown or unclaimed property', pid)
